@@ -43,13 +43,13 @@ CHECKS = {
         text="Theorems: C01_step - every call (three assignments + constructors), any arguments, any hook-fault oracle, both "
              "mixins, both assertion settings, any re-entrancy fuel keeps the link state a consistent forest (Inv), "
              "including refused, hook-aborted and half-rolled-back calls; C01_history by induction over histories; the "
-             "statement's clauses as corollaries of Inv; inv_b (evaluated on observed link maps) <-> Inv; assertion "
-             "irrelevance proved for fault-free parent/del/children calls (C01_assertions_parent_del/_children); with "
-             "faults it is kept visible as C01_assertions_full and checked by correspondence. Tie: every forest <= 3 nodes "
+             "statement's clauses as corollaries of Inv; inv_b (evaluated on observed link maps) <-> Inv; C01_assertions: "
+             "under Inv a run with ANYTREE_ASSERTIONS on is the same run as with it off - every call, any fault oracle, "
+             "any fuel (relational Hoare logic over the setter monad, Proofs/MutAssert.v). Tie: every forest <= 3 nodes "
              "x every call x 5 classes x all single fault positions / persistent vetoes / sampled doubles x "
              "ANYTREE_ASSERTIONS 0/1 + random live histories, a sixth of the cases on node classes with user-defined "
              "__eq__/__bool__/__len__/__hash__; observed maps compared with the model and fed to inv_b.",
-        design="6/C01, 0", note="Hooks that mutate the tree are outside the quantifier (seeded change C16-seed2 lives there and is not detected).",
+        design="6/C01, 0", note="Hooks that restructure the tree are outside C01's quantifier; the harmless subclass (detaching other nodes) is covered under C16.",
         technique="Coq proof (invariant preservation through a state+exception monad, induction over histories) + exhaustive small-scope fault-injection correspondence"),
     "C02": dict(
         text="Theorems: exact outcome (LoopError/TreeError iff), final link state (pointwise: what changes and that "
@@ -74,9 +74,14 @@ CHECKS = {
         text="Theorems for the parent setter: exact log with state snapshots of every fault-free change, silence of "
              "no-op and refused assignments, enumeration of every possible ending under any fault oracle (sp_end), "
              "post-hook faults do not roll back, what each hook observes; C16_del_log and C16_children_log: exact "
-             "wrapping of the per-child calls by the *_children hooks with the state each observes. Tie: every forest <= 3 nodes x every "
+             "wrapping of the per-child calls by the *_children hooks with the state each observes; "
+             "C16_log_explains_state: for EVERY call, fault oracle, assertion setting and fuel the final link state is the "
+             "initial one changed exactly as the logged _post_detach/_post_attach invocations report (no silent link "
+             "change, no unreported rollback); C16_reentrant_hooks: hooks of the moving node that detach OTHER nodes "
+             "while the setter runs keep the forest consistent and still observe the promised states (Model/Reentry.v, "
+             "tied by its own correspondence family). Tie: every forest <= 3 nodes x every "
              "call with all eight hooks logging kind/node/argument/complete link map.",
-        design="6/C16, 0", note="hooks are observers that may raise; hooks that themselves mutate the tree are outside the model (seeded change C16-seed2 is not detected).",
+        design="6/C16, 0", note="hooks that detach other nodes are modelled (Reentry); hooks that move the node being moved, or attach nodes, are outside the model (the unchanged code breaks C01 under them).",
         technique="Coq proof (symbolic execution of the setter monad) + exhaustive correspondence of hook logs with state snapshots"),
     "C18": dict(
         text="Theorems: C18_lockstep - for node arguments the two mixins' setters are the same function (all faults, "
@@ -139,16 +144,19 @@ CHECKS = {
              "wildcard relation; cache invariant and history independence for the extracted key (pattern, ignorecase) "
              "incl. eviction; refutation witness for 'strict = relaxed or raises' (KF-C08-1); relaxed glob never raises "
              "(C08_relaxed_total) and yields exactly the denotation of the component list (C08_relaxed_den: membership "
-             "iff). Order and duplicate-freeness of the result (C08_relaxed_order_full) stay visible, not proved, and "
-             "are evaluated in Coq on observed results together with the agreement with get. Tie: patterns over names/wildcards/**/../. on trees <= 4 nodes, glob vs get, 60-call cache "
+             "iff); without '**'/'..' the result is a subsequence of the (duplicate-free) pre-order of the start node's "
+             "subtree (C08_relaxed_preorder) and it is duplicate-free whenever no '..' follows a name or wildcard "
+             "component (C08_relaxed_nodup). These clauses and the agreement with get are also evaluated in Coq on "
+             "observed results. Tie: patterns over names/wildcards/**/../. on trees <= 4 nodes, glob vs get, 60-call cache "
              "histories across _MAXCACHE each compared with cold-cache runs.",
-        design="6/C08, 7 (D6), 0", note="partial: order/no-duplicates of glob results not proved (C08_relaxed_order_full visible).",
+        design="6/C08, 7 (D6), 0", note="strict-vs-relaxed clause refuted (KF-C08-1); everything else proved.",
         technique="Coq proof (matcher, cache invariant) + refutation + correspondence with denotational spec evaluated in Coq"),
     "C10": dict(
         text="Theorems: export with default iterators = structural map of the tree cut at maxlevel (bookkeeping keys from "
              "the extracted skip list dropped, 'children' iff non-empty, fuel sufficient); import_(export(t)) = t cut at "
-             "maxlevel (shape, child order, attributes); export(import_(d)) = d up to empty 'children' lists. attriter / "
-             "childiter variants are in the model and tied by correspondence. Tie: every shape <= 5 nodes x random "
+             "maxlevel (shape, child order, attributes); export(import_(d)) = d up to empty 'children' lists; "
+             "C10_export_iterators: for any attriter and any childiter that selects/reorders its argument the result is the "
+             "structural image of the tree with both applied at every level; 'children' is never an empty list. Tie: every shape <= 5 nodes x random "
              "attribute dictionaries x maxlevel x attriter x childiter x dictcls x {AnyNode, Node, user NodeMixin}, both "
              "directions, arbitrary dictionaries, arguments deep-copied and compared.",
         design="6/C10", note="values are opaque tokens; node classes with an instance __dict__.",
@@ -166,8 +174,9 @@ CHECKS = {
         text="Theorems: C09_rows - for every tree, style, maxlevel and every childiter that selects/reorders the given "
              "children, the generator's rows are exactly the pointwise rows of the statement on the rendered tree "
              "(pre-order, bar/blank per ancestor with a following sibling, continue/end branch), fuel sufficient; widths "
-             "for equal-width styles; the four extracted built-in styles are equal-width; text line rule. Reconstruction "
-             "from the text is kept visible, not proved. Tie: every shape <= 5 nodes x maxlevel x 5 childiters x 6 styles "
+             "for equal-width styles; the four extracted built-in styles are equal-width; text line rule; C09_reconstruct: "
+             "two rendered trees whose rows have prefixes of the same widths have the same shape (the depth sequence in "
+             "pre-order determines the tree). Tie: every shape <= 5 nodes x maxlevel x 5 childiters x 6 styles "
              "x value kinds x selectors, rows and full text compared; Node/AnyNode reprs against the _repr model.",
         design="6/C09", note="repr/str/splitlines are CPython's (lines shipped); Node repr modelled for plainly quotable names.",
         technique="Coq proof (generator = structural rows = pointwise rows) + correspondence"),
